@@ -24,11 +24,11 @@ type Access struct {
 	// for map-update: the key and the value stored (in Fn's terms; nil when the update is made by a helper from
 	// something that is not one of its parameters)
 	MapKey, MapVal ssa.Value
-	Local  bool   // base object allocated in this function (not yet published)
-	Base   string // symbolic path of the base object
-	Locks  lockset.State
-	Init   bool // in a construction-only function
-	Pos    token.Pos
+	Local          bool   // base object allocated in this function (not yet published)
+	Base           string // symbolic path of the base object
+	Locks          lockset.State
+	Init           bool // in a construction-only function
+	Pos            token.Pos
 }
 
 // CollectAccesses enumerates the field accesses of all library functions to structs declared in
